@@ -21,15 +21,29 @@ class MasterTop(Module):
         self.submodules.dut = SPIMaster(pads, dw, sys_clk_freq=div, spi_clk_freq=1, with_csr=False, mode=mode)
         # mode-0 responder: bit 0 of the answer is on MISO while the clock is still low, the next bit
         # appears together with every falling edge of the clock (no delay).
+        # `vd`: output delay of the slave: for vd cycles after the falling edge (or CS assertion) MISO still shows the
+        # complement of the new bit (data not yet valid); legal up to (low time - 1).
         self.resp = Signal(RESP_BITS)
+        self.vd = Signal(8)
         clk_d = Signal()
+        cs_d = Signal()
         cnt = Signal(max=RESP_BITS)
         fall = Signal()
         idx = Signal(max=RESP_BITS)
-        self.sync += clk_d.eq(pads.clk)
-        self.comb += fall.eq(clk_d & ~pads.clk), idx.eq(cnt + fall)
-        self.sync += If(pads.cs_n == (2**ncs - 1), cnt.eq(0)).Elif(fall, cnt.eq(cnt + 1))
-        self.comb += pads.miso.eq(Array(self.resp[RESP_BITS - 1 - i] for i in range(RESP_BITS))[idx])
+        cs_act = Signal()
+        age_r = Signal(8)
+        age = Signal(8)
+        bit = Signal()
+        self.sync += clk_d.eq(pads.clk), cs_d.eq(cs_act)
+        self.comb += [
+            cs_act.eq(pads.cs_n != (2**ncs - 1)),
+            fall.eq(clk_d & ~pads.clk), idx.eq(cnt + fall),
+            If(fall | (cs_act & ~cs_d), age.eq(0)).Else(age.eq(age_r)),
+            bit.eq(Array(self.resp[RESP_BITS - 1 - i] for i in range(RESP_BITS))[idx]),
+            pads.miso.eq(bit ^ (age < self.vd)),
+        ]
+        self.sync += If(age != 255, age_r.eq(age + 1))
+        self.sync += If(~cs_act, cnt.eq(0)).Elif(fall, cnt.eq(cnt + 1))
 
 
 class MasterDriver:
@@ -49,7 +63,7 @@ class MasterDriver:
     def _params(self, it):
         d = self.d
         return {d.length: it["length"], d.mosi: it["mosi"], d.cs: it["cs"], d.loopback: it["loop"],
-                d.cs_mode: it["manual"], self.top.resp: it["resp"]}
+                d.cs_mode: it["manual"], self.top.resp: it["resp"], self.top.vd: it["vd"]}
 
     def step(self, v, c):
         d = self.d
@@ -286,7 +300,7 @@ def master_plan(rng, n, dw, div, ncs, kind):
             ov = sorted(set(rng.randint(1, total) for _ in range(rng.randint(1, 6))))
         plan.append({"gap": gap, "length": L, "mosi": rng.getrandbits(dw), "cs": 1 << rng.randrange(ncs) if rng.random() < 0.85 else rng.randint(1, 2**ncs - 1),
                      "loop": int(kind == "loopback" or (kind == "mixed" and rng.random() < 0.2)), "manual": int(kind == "manual"),
-                     "resp": rng.getrandbits(RESP_BITS), "early": rng.random() < 0.5, "hold": 1 if kind != "held" else 10**9,
+                     "resp": rng.getrandbits(RESP_BITS), "vd": rng.choice([0, max(0, div // 2 - 1), rng.randint(0, max(0, div // 2 - 1))]), "early": rng.random() < 0.5, "hold": 1 if kind != "held" else 10**9,
                      "overlaps": ov, "glitch": kind in ("overlap", "mixed") and rng.random() < 0.7, "div": None})
     return plan
 
@@ -308,6 +322,7 @@ def master_case(col, case):
     d, p = top.dut, top.pads
     tr = Tracer([("start", d.start), ("done", d.done), ("irq", d.irq), ("clk", p.clk), ("cs_n", p.cs_n),
                  ("mosi", p.mosi), ("miso", p.miso), ("div", d.clk_divider)], depth=48)
+    viol.tracer = tr
     maxdiv = max([div] + case.get("divs", []))
     cap = sum((it["length"] + 2) * maxdiv + it["gap"] + 12 for it in plan) + 200
     if kind == "held":
@@ -446,6 +461,7 @@ def slave_case(col, case):
     p = dut.pads
     tr = Tracer([("clk", p.clk), ("cs_n", p.cs_n), ("mosi", p.mosi), ("miso", p.miso), ("start", dut.start), ("irq", dut.irq),
                  ("done", dut.done), ("length", dut.length)], depth=48)
+    viol.tracer = tr
     cap = sum(2 * it["hp"] * len(it["bits"]) + it["su"] + it["ho"] + it["gap"] + 20 for it in plan) + 100
     b = Bench(dut, cap=cap)
     b.add(bfm)
@@ -498,8 +514,8 @@ def cases(tier, seed):
     out = []
     k = 0
     kinds = ["plain", "overlap", "mixed", "loopback", "manual", "held"]
-    for rep in range(1 if q else 5):
-        for di, div in enumerate(DIVS):
+    for rep in range(3 if q else 15):
+        for di, div in enumerate(DIVS if q else DIVS + [64, 255][:1 + rep % 2]):
             for ki, kind in enumerate(kinds):
                 rr = rng_for(seed, "C19/spi", rep, div, kind)
                 dw = rr.choice([8, 16, 32, 12, 24, 5])
@@ -510,11 +526,11 @@ def cases(tier, seed):
                 out.append({"cls": "spi_master", "seed": "%d/C19/spi_master/%d" % (seed, k), "dw": dw, "div": div, "mode": mode,
                             "ncs": ncs, "kind": kind, "n": n})
                 k += 1
-    for rep in range(2 if q else 8):
+    for rep in range(3 if q else 10):
         out.append({"cls": "spi_master_divchange", "seed": "%d/C19/spi_divchange/%d" % (seed, rep), "dw": 8, "div": 16, "mode": "raw",
                     "ncs": 1, "kind": "divchange", "divs": [4, 6, 16, 12], "n": 6})
     k = 0
-    for rep in range(2 if q else 10):
+    for rep in range(6 if q else 30):
         for dw in (8, 16, 32, 12):
             out.append({"cls": "spi_slave", "seed": "%d/C19/spi_slave/%d" % (seed, k), "dw": dw, "n": 6 if q else 10,
                         "hps": [4, 5, 6, 8, 11], "su_min": 5})
